@@ -66,6 +66,7 @@ pub fn expand(input: &syn::DeriveInput, _: &str) -> syn::Result<TokenStream> {
 
     Ok(quote! {
         #[allow(deprecated)] // omit warnings on deprecated fields/variants
+        #[allow(non_snake_case)] // omit warnings on bindings named after the fields
         #[allow(unreachable_code)] // omit warnings for `!` and other unreachable types
         #[automatically_derived]
         impl #impl_gens derive_more::core::fmt::Debug for #ident #ty_gens #where_clause {
